@@ -3,8 +3,11 @@
    Sources: documents/specs/Structures.md, Input.md, Context.md, the flag help of main.py,
    documents/knowledge/elements.yaml (element `n`: "value of the current loop or function").
    The context value, the input scope and a callee's own stack are BRACKETS: the evaluator
-   runs the body inside and afterwards puts back what was there, whatever the body did; the
-   function stack and the registry of stacks (implementation devices) do not occur at all.
+   runs the body inside and afterwards puts back what was there, whatever the body did.
+   The function stack and the registry of stacks are implementation devices that nothing in
+   this file reads; only their DEPTHS are carried along (two ghost counters of the shared
+   state record, raised inside the bracket of a call and put back by it) so that the two
+   evaluators can be compared state by state.
 
    Readings adopted where the documents are silent or contradict each other (the newer
    document wins; each can be challenged):
@@ -38,6 +41,12 @@ Definition with_scope {A} (args : list value) : (state -> xres (A * state)) -> s
 Definition with_stack {A} (st : list value) : (state -> xres (A * state)) -> state -> xres (A * state) :=
   bracket (fun s => set_stk s st) (fun s0 s' => set_stk s' (stk s0)).
 
+(* ghost counters: a function frame is live / a callee's stack is registered *)
+Definition with_function {A} : (state -> xres (A * state)) -> state -> xres (A * state) :=
+  bracket (fun s => set_fdepth s (S (fdepth s))) (fun s0 s' => set_fdepth s' (fdepth s0)).
+Definition with_registered {A} : (state -> xres (A * state)) -> state -> xres (A * state) :=
+  bracket (fun s => set_sdepth s (S (sdepth s))) (fun s0 s' => set_sdepth s' (sdepth s0)).
+
 (* a body that returns nothing *)
 Definition with_context_u (v : value) (k : state -> xres state) (s : state) : xres state :=
   xdo s' <- k (set_ctxv s (v :: ctxv s)); XOk (set_ctxv s' (ctxv s)).
@@ -51,9 +60,11 @@ Section Step.
      input scope; the result is the top of its own stack *)
   Definition r_lambda (c : closure) (popped : list value) : state -> xres (value * state) :=
     with_stack (rev popped)
-      (with_context (context_of popped)
-         (with_scope (rev popped)
-            (fun s => xdo s1 <- rec (c_body c) s; let (s2, r) := pop1 s1 in XOk (r, s2)))).
+      (with_function
+         (with_context (context_of popped)
+            (with_scope (rev popped)
+               (with_registered
+                  (fun s => xdo s1 <- rec (c_body c) s; let (s2, r) := pop1 s1 in XOk (r, s2)))))).
 
   (* "numbers pop that many arguments and push them to the function's stack" *)
   Fixpoint r_params (ps : list nat) (s : state) : state * list value :=
@@ -68,7 +79,8 @@ Section Step.
     let (s1, ps) := r_params (c_params c) s in
     with_stack (rev ps)
       (with_context (VList ps)
-         (with_scope (rev ps) (fun s => xdo s' <- rec (c_body c) s; XOk (stk s', s')))) s1.
+         (with_scope (rev ps)
+            (with_registered (fun s => xdo s' <- rec (c_body c) s; XOk (stk s', s'))))) s1.
 
   (* applying a function value to explicit arguments *)
   Definition r_app : app_t := fun c args s =>
@@ -213,4 +225,4 @@ with rloop (cf : cfg) (fuel : nat) (v : value) (c b : list struct) (s : state) :
   end.
 
 Definition run_ref (fl : flag) (fuel : nat) (inputs : list value) (p : list struct) : xres state :=
-  xdo s <- eval (cfg_of fl) fuel p (init_state fl inputs); finish fl s.
+  xdo s <- eval (cfg_of fl) fuel p (init_state fl inputs); finish (r_app (eval (cfg_of fl) fuel)) fl s.
